@@ -36,6 +36,9 @@ def vtok (b : Bytes) : String :=
   | [] => "-"
   | x :: _ => if b.length ≥ 64 && b.all (· == x) then s!"z{b.length}:{String.ofList [hexNibble (x / 16), hexNibble (x % 16)]}" else hex b
 
+/-- canonical form of a value token read from a history line -/
+def canonVal (tok : String) : Val := if tok.startsWith "z" then tok else vtok (unhex tok)
+
 abbrev DBS := Spec.DB Bytes Val
 abbrev ItemS := Bytes × Spec.Item Val
 
@@ -198,7 +201,7 @@ def stepOp (s : St) (f : List String) : Step :=
           else if h.orphan then ⟨s, []⟩
           else if !h.alive then ⟨s, ["panic:deleted"]⟩
           else
-            let (r, db') := Spec.put tx.db h.path (unhex (str 3)) (str 4)
+            let (r, db') := Spec.put tx.db h.path (unhex (str 3)) (canonVal (str 4))
             match r with
             | .error e => ⟨s, [fmtErr e]⟩
             | .ok none => ⟨s.setTx { tx with db := db' }, ["ok:none"]⟩
